@@ -66,6 +66,13 @@ impl ProofVerifier for VerifiableEncryptionVerifier<'_, '_> {
     }
 
     fn verify(&self, challenge: Scalar) -> CredxResult<()> {
+        // the statement decides whether the scalar must be decryptable, not the proof
+        if self.statement.allow_message_decryption != self.proof.decryptable_scalar_proof.is_some()
+        {
+            return Err(Error::General(
+                "The decryptable part of the proof does not match the statement",
+            ));
+        }
         if let Some(decryptable_proof) = self.proof.decryptable_scalar_proof.as_ref() {
             let bp_gens = BulletproofGens::new(8, decryptable_proof.byte_proofs.len());
             let pedersen_gen = PedersenGens {
